@@ -410,6 +410,39 @@ func c03Cases(c *h.Ctx) error {
 					c.Fail("message.Message.Unmarshal", "header-roundtrip:"+f, fmt.Sprintf("decoded %+v", *c03GetHeader(m.Header)), smp)
 				}
 			}
+			// (c) histories: the same decode into a Message that is being REUSED -- it already holds the command of the
+			// opposite direction for this code (put there by AddCommand, or by an earlier Unmarshal). The type must still be
+			// the one the code and the reply flag of THIS packet designate.
+			if err == nil {
+				opp := append([]byte{}, ln.Msg...)
+				opp[9] ^= 0x80 // the reply flag of the SMB header
+				var other command_interface.CommandInterface
+				var oerr error
+				if ln.Reply {
+					other, oerr = commands.CreateRequestCommand(hd.Command)
+				} else {
+					other, oerr = commands.CreateResponseCommand(hd.Command)
+				}
+				for _, how := range []string{"AddCommand", "Unmarshal"} {
+					m2 := message.NewMessage()
+					primed := false
+					if how == "AddCommand" && oerr == nil && other != nil {
+						h.Guard(func() { other.Init(); m2.AddCommand(other); primed = true })
+					} else if how == "Unmarshal" {
+						h.Guard(func() { primed = m2.Unmarshal(opp) == nil })
+					}
+					if !primed {
+						continue
+					}
+					var e2 error
+					if p := h.Guard(func() { e2 = m2.Unmarshal(append([]byte{}, ln.Msg...)) }); p == "" && e2 == nil {
+						c.Exec(1)
+						if t := c03TypeName(m2.Command); t != got {
+							c.Fail("message.Message.Unmarshal", asp+":reused-message:"+how, fmt.Sprintf("decoding into a Message that already held the opposite-direction command (via %s) produced %s; code %#02x with reply=%v designates %s", how, t, ln.Code, ln.Reply, got), smp)
+						}
+					}
+				}
+			}
 		case "blk":
 			c.Case(fmt.Sprintf("blk:%d:%d", ln.WC, ln.BC))
 			smp := map[string]interface{}{"word_count": ln.WC, "byte_count": ln.BC, "message_len": len(ln.Msg)}
